@@ -116,6 +116,29 @@ pub fn sweep(tables: &str, mode: &str) {
                                     let r = catch(|| {
                                         process_simd(&mut aa, &mut bb, &mut cc, &mut dd, s as u8)
                                     });
+                                    // the same patterns once more with all eight lanes equal (lane-uniform input)
+                                    for l in 0..8 {
+                                        let c = c8 * 8 + l as i32;
+                                        let mut ua = [a as u8; 8];
+                                        let mut ub = [b as u8; 8];
+                                        let mut uc = [c as u8; 8];
+                                        let mut ud = [d as u8; 8];
+                                        let ru = catch(|| process_simd(&mut ua, &mut ub, &mut uc, &mut ud, s as u8));
+                                        let e = expected(t, a, b, c, d, s);
+                                        n += 1;
+                                        let lane = (l + (a as usize) + (b as usize)) % 8;
+                                        let got = if ru.is_ok() {
+                                            Some((ua[lane] as i32, ub[lane] as i32, uc[lane] as i32, ud[lane] as i32))
+                                        } else {
+                                            None
+                                        };
+                                        if got != Some(e) && bad.len() < 50 {
+                                            bad.push(format!(
+                                                "mismatch kernel=simd-uniform a={} b={} c={} d={} s={} got={:?} want={:?}",
+                                                a, b, c, d, s, got, e
+                                            ));
+                                        }
+                                    }
                                     for l in 0..8 {
                                         let c = c8 * 8 + l as i32;
                                         let e = expected(t, a, b, c, d, s);
